@@ -61,7 +61,7 @@ def notifyS : Nat → World → SlabID → Ctx → Except WErr (World × Ctx)
       else
         let notFound : World := { w with hinfo := AList.erase w.hinfo x }
         match w.cont? hi.parent with
-        | none => .error .unknownContainer
+        | none => .ok (notFound, cx)
         | some (.arr pa) =>
           match AList.find? (w.idxOf hi.parent) x with
           | none => .ok (notFound, cx)
